@@ -215,7 +215,17 @@ func (t *Transport) decodeFromWithCompression(rd io.Reader) (int, []byte, error)
 	if err := frd.Close(); err != nil {
 		return 0, nil, err
 	}
+	if err := drain(ird); err != nil {
+		return 0, nil, err
+	}
 	return ird.ReadBytes, m, nil
+}
+
+// drain reads the WebSocket message to its end. The DEFLATE stream ends before the message does when the peer finishes
+// the message with an empty final frame; a message left unfinished makes the next Reader call of the connection fail.
+func drain(rd io.Reader) error {
+	_, err := io.Copy(io.Discard, rd)
+	return err
 }
 
 func (t *Transport) decodeFromWithContextTakeover(rd io.Reader) (int, []byte, error) {
@@ -233,6 +243,9 @@ func (t *Transport) decodeFromWithContextTakeover(rd io.Reader) (int, []byte, er
 		t.readWindowBuf.Next(t.readWindowBuf.Len() - t.compressConfig.WindowSize())
 	}
 	if err := frd.Close(); err != nil {
+		return 0, nil, err
+	}
+	if err := drain(ird); err != nil {
 		return 0, nil, err
 	}
 	return ird.ReadBytes, m, nil
